@@ -128,6 +128,11 @@ func runCase(c Case, st *ev.Stats) (err error) {
 		rets = append(rets, x)
 		mu.Unlock()
 	}
+	// decoy: a waiter for a far-away tick, registered BEFORE all others (waiters
+	// are not registered in tick order in real programs); it must stay open and
+	// must not shadow the waiters registered after it
+	decoyTick := m.QueueTick() + 100000
+	decoy := m.WhenQueue(am.Result(decoyTick))
 	heldAppends := 0
 	if c.Gate != "" {
 		g := sched.Arm(m, c.Gate, 1)
@@ -271,6 +276,9 @@ func runCase(c Case, st *ev.Stats) (err error) {
 			return fmt.Errorf("%s returned queue tick %d, the machine is idle at queue tick %d, but WhenQueue(%d) is still open", r.step, r.res, qt, r.res)
 		}
 	}
+	if closed(decoy) {
+		return fmt.Errorf("WhenQueue(%d) closed although the machine is idle at queue tick %d", decoyTick, qt)
+	}
 	for _, nr := range run.Runner.NestedResults {
 		if nr.Res >= am.Queued && qt < uint64(nr.Res) {
 			return fmt.Errorf("handler %s issued %s, got tick %d, machine idle at tick %d", nr.Name, nr.Step, nr.Res, qt)
@@ -325,6 +333,11 @@ func genCase(t *rapid.T, scripted bool) Case {
 	if scripted {
 		c.Gate = rapid.SampledFrom(gatePoints).Draw(t, "gate")
 		c.Holder = gen.GenStep(t, sc, gen.HistoryOpts{Ops: []string{"add", "add", "set"}}, "holder")
+		if c.Gate == "pq.loopExit" || c.Gate == "pq.released" {
+			if rapid.IntRange(0, 3).Draw(t, "evalHolder") == 0 {
+				c.Holder = gen.Step{Op: "eval"} // an Eval-only queue run owns the queue
+			}
+		}
 		n := rapid.IntRange(1, 4).Draw(t, "others")
 		for i := 0; i < n; i++ {
 			ops.MaxLen = 3
